@@ -769,6 +769,17 @@ impl Stream for Fault {
                 }
             }
         }
+        // how the `Interrupted` lines are judged: compared with the models with std's convention, or (compressing write
+        // scenarios only) by the oracle alone
+        let mut intr = (0u64, 0u64);
+        for l in &g.ops {
+            let (op, a) = parse_line(l);
+            if a.get("kind").map(|s| s.as_str()) == Some("interrupted") && !op.ends_with('o') && op != "fault.enc" && op != "fault.writec" && op != "fault.rawcopy" {
+                if intr_unmodelled(&op, &a) { intr.1 += 1 } else { intr.0 += 1 }
+            }
+        }
+        g.dist.insert("interrupted.compared".into(), intr.0);
+        g.dist.insert("interrupted.oracle-only-compressing".into(), intr.1);
         g
     }
 
